@@ -475,3 +475,700 @@ Proof.
     split; auto. destruct (Nat.eq_dec (fst (fst x)) i) as [e|e]; [|rewrite Hkne; auto]. rewrite e in *. rewrite Hki. auto.
   - rewrite Hlog; auto.
 Qed.
+
+(* ------------------------------------------------------------------ a coroutine step on its own node n
+   (emplace: free / new slot -> SEmp; add_awaiter: SEmp -> SQueued; non-matching wait: SEmp -> SFree) *)
+Lemma Inv_ktrans : forall s s' i n sl' K',
+  Inv s ->
+  let sl := slot_at s n in
+  (((n < nslots s)%nat /\ (sst sl = SFree \/ (sst sl = SEmp /\ nco sl = i))) \/ n = nslots s) ->
+  (sst sl' = SEmp \/ sst sl' = SQueued \/ sst sl' = SFree) ->
+  ((exists j, kstat s i = KReady j) \/ (exists j, kstat s i = KLock j n)) ->
+  ((n < nslots s)%nat -> ver sl < ver sl' \/ (ver sl' = ver sl /\ sst sl' = SQueued)) ->
+  (forall j, passed (kstat s i) j -> passed K' j) ->
+  slot_at s' n = sl' -> (n < nslots s')%nat -> (nslots s <= nslots s')%nat ->
+  (forall m, (m < nslots s')%nat -> m = n \/ (m < nslots s)%nat) ->
+  (forall m, m <> n -> (m < nslots s)%nat -> same_core (slot_at s' m) (slot_at s m)) ->
+  clients s' = clients s -> mtx s' = mtx s -> nver s <= nver s' -> bad s' = bad s -> rlog s' = rlog s ->
+  kstat s' i = K' -> (forall i', i' <> i -> kstat s' i' = kstat s i') -> (forall i', kex s' i' = kex s i') ->
+  slot_ok s' n -> coro_ok s' i ->
+  NoDup (vis s') -> (forall m, In m (vis s') -> m = n \/ In m (vis s)) -> (forall m, In m (vis s) -> In m (vis s')) ->
+  (In n (vis s') -> sst sl' = SQueued) ->
+  NoDup (freel s') -> (forall m, In m (freel s') -> (In m (freel s) /\ m <> n) \/ (m = n /\ sst sl' = SFree)) ->
+  (forall m, In m (freel s) -> m <> n -> In m (freel s')) ->
+  (forall m, In m (lst s') -> linked (slot_at s' m) = true) ->
+  (forall x, In x (tokens s') -> In x (tokens s) \/ tok_ok s' x) ->
+  Inv s'.
+Proof.
+  intros s s' i n sl' K' I sl Hold Hg' HK Hver Hp Hsn Hnlt Hnsle Hnsm Hsl Hcl Hmtx Hnv Hbad Hlog Hki Hkne Hx
+         Hnok Hiok Hvnd Hvin Hvkeep Hvn Hfnd Hfin Hfkeep Hlk Htk.
+  assert (Hc : forall t, cst s' t = cst s t) by (intro; apply cst_frame; auto).
+  destruct I as [Is It Ic Ivn Iv Ifn If Il Itok Ib Ilog Iln].
+  (* nodes owned by clients, queued, or of another coroutine are not n *)
+  assert (Hne : forall m, (m < nslots s)%nat ->
+            (sst (slot_at s m) = SQueued \/ (exists t, sst (slot_at s m) = SCan t \/ sst (slot_at s m) = SHeld t \/
+             sst (slot_at s m) = SFin t) \/ (sst (slot_at s m) = SEmp /\ nco (slot_at s m) <> i)) -> m <> n).
+  { intros m Hm Hs Hmn. subst m. fold sl in Hs. destruct Hold as [[_ [G|[G G2]]]|G]; [| |lia];
+      destruct Hs as [Hs|[[t [Hs|[Hs|Hs]]]|[Hs Hs2]]]; congruence. }
+  assert (Hkk : forall m, (m < nslots s)%nat -> m <> n -> forall K,
+            (K = KLock (nwi (slot_at s m)) m \/ K = KSusp (nwi (slot_at s m)) m) ->
+            kstat s (nco (slot_at s m)) = K -> kstat s' (nco (slot_at s m)) = K).
+  { intros m Hm Hmn K HKK HKs. destruct (Nat.eq_dec (nco (slot_at s m)) i) as [e|e]; [|rewrite Hkne; auto].
+    exfalso. rewrite e in HKs. destruct HK as [[j HK]|[j HK]]; rewrite HK in HKs; destruct HKK as [->| ->]; congruence. }
+  constructor.
+  - intros m Hmlt. destruct (Nat.eq_dec m n) as [->|Hmn]; [exact Hnok|].
+    destruct (Hnsm m Hmlt) as [|Hm]; [contradiction|]. specialize (Is m Hm). unfold slot_ok in *.
+    destruct (Hsl m Hmn Hm) as (e1 & e2 & e3 & e4 & e5 & e6). rewrite e1, e2, e3, e4, e5, e6, Hx.
+    destruct Is as (A & B & C). split; [lia|]. split; [exact B|].
+    destruct (sst (slot_at s m)) as [| | |t0|t0|t0] eqn:E; rewrite ?Hc.
+    + destruct C as (C1 & C2). split; auto.
+    + destruct C as (C1 & C2). split; auto; try (apply Hkk; auto).
+    + destruct C as (C1 & C2 & C3). repeat split; auto; try (apply Hkk; auto).
+    + destruct C as (C1 & C2 & C3). repeat split; auto; try (apply Hkk; auto).
+    + destruct C as (C1 & C2 & C3). repeat split; auto; try (apply Hkk; auto).
+    + exact C.
+  - intro t. specialize (It t). unfold thread_ok in *. rewrite Hc, Hmtx.
+    destruct It as (A & B & C & D & E). split; [exact A|]. split; [|split; [|split]]; auto.
+    + intros q Hq. destruct (B q Hq) as [B1 B2]. assert (q <> n) by (apply Hne; eauto 6).
+      destruct (Hsl q H B1) as (_ & _ & _ & _ & _ & e6). rewrite e6. split; auto; lia.
+    + intros q Hq. destruct (C q Hq) as [B1 B2]. assert (q <> n) by (apply Hne; eauto 6).
+      destruct (Hsl q H B1) as (_ & _ & _ & _ & _ & e6). rewrite e6. split; auto; lia.
+    + intros q Hq. destruct (D q Hq) as [B1 B2]. assert (q <> n) by (apply Hne; eauto 6).
+      destruct (Hsl q H B1) as (_ & _ & _ & _ & _ & e6). rewrite e6. split; auto; lia.
+  - intro i'. destruct (Nat.eq_dec i' i) as [->|Hi]; [exact Hiok|].
+    unfold coro_ok. rewrite Hkne by auto. specialize (Ic i'). unfold coro_ok in Ic.
+    destruct (kstat s i') eqn:Ek; auto.
+    + destruct Ic as (A & B & C & D). assert (n0 <> n) by (apply Hne; auto; right; right; split; congruence).
+      destruct (Hsl n0 H A) as (_ & _ & e3 & e4 & _ & e6). rewrite e3, e4, e6. repeat split; auto; lia.
+    + destruct Ic as (A & B & C & D). assert (n0 <> n).
+      { apply Hne; auto. destruct D as [D|[t [D|D]]]; eauto 6. }
+      destruct (Hsl n0 H A) as (_ & _ & e3 & e4 & _ & e6). rewrite e3, e4, e6. repeat split; auto; lia.
+  - exact Hvnd.
+  - intros m Hm'. destruct (Hvin m Hm') as [->|Hm].
+    + split; auto. rewrite Hsn. left. apply Hvn. exact Hm'.
+    + destruct (Iv m Hm) as [V1 V2]. assert (m <> n).
+      { apply Hne; auto. destruct V2 as [V2|[t V2]]; eauto 6. }
+      destruct (Hsl m H V1) as (_ & _ & _ & _ & _ & e6). rewrite e6. split; auto; lia.
+  - exact Hfnd.
+  - intros m Hm'. destruct (Hfin m Hm') as [[Hm Hmn]|[-> Hf]].
+    + destruct (If m Hm) as [F1 F2]. destruct (Hsl m Hmn F1) as (_ & _ & _ & _ & _ & e6). rewrite e6. split; auto; lia.
+    + split; auto. rewrite Hsn. exact Hf.
+  - exact Hlk.
+  - intros x Hxin. destruct (Htk x Hxin) as [Hxold|]; auto. specialize (Itok x Hxold). unfold tok_ok in *.
+    destruct Itok as (T1 & T2 & T3). destruct (Nat.eq_dec (fst (snd x)) n) as [Hxn|Hxn].
+    + rewrite Hxn in *. rewrite Hsn. fold sl in T2, T3. split; auto. destruct (Hver T1) as [Hlt|[Heq Hq]].
+      * split; [lia|]. intro; lia.
+      * split; [lia|]. auto.
+    + destruct (Hsl _ Hxn T1) as (e1 & _ & _ & _ & _ & e6). rewrite e1, e6. split; [lia|]. auto.
+  - congruence.
+  - intros x Hxin. rewrite Hlog in Hxin. specialize (Ilog x Hxin). unfold log_ok in *. rewrite Hx. destruct Ilog as [L1 L2].
+    split; auto. destruct (Nat.eq_dec (fst (fst x)) i) as [e|e]; [|rewrite Hkne; auto]. rewrite e in *. rewrite Hki. auto.
+  - rewrite Hlog; auto.
+Qed.
+
+Ltac sc := intro; unfold same_core; repeat split; reflexivity.
+
+Lemma Inv_move_simple : forall s s' t p',
+  Inv s -> slots s' = slots s -> coros s' = coros s -> lst s' = lst s -> freel s' = freel s -> nver s' = nver s ->
+  tokens s' = tokens s -> bad s' = bad s -> rlog s' = rlog s -> mtx s' = mtx s ->
+  (forall t', t' <> t -> cst s' t' = cst s t') -> cst s' t = p' ->
+  held_pc p' = held_pc (cst s t) -> fin_pc p' = fin_pc (cst s t) -> can_pc p' = can_pc (cst s t) ->
+  chain_pc p' = [] -> chain_pc (cst s t) = [] ->
+  Inv s'.
+Proof.
+  intros s s' t p' I Hsl Hco Hlst Hfr Hnv Htk Hbad Hlog Hmtx Hcne Hct Hh Hf Hc Hch1 Hch2.
+  assert (Hs : forall m, slot_at s' m = slot_at s m) by (intro; apply slot_at_frame; auto).
+  assert (Hvis : vis s' = vis s).
+  { unfold vis. rewrite Hlst, Hmtx. destruct (mtx s) as [t0|]; auto. f_equal.
+    destruct (Nat.eq_dec t0 t) as [->|Ht0]; [rewrite Hct; congruence | rewrite Hcne; auto]. }
+  eapply Inv_move with (t := t) (p' := p'); eauto.
+  - intro m. rewrite Hs. unfold same_core. auto 10.
+  - unfold nslots. now rewrite Hsl.
+  - intro H. congruence.
+  - rewrite Hvis. apply (i_vis_nodup _ I).
+  - intros m Hm. now rewrite <- Hvis.
+  - intros m Hm Hn. rewrite Hvis in Hn. contradiction.
+  - intros m Hm. rewrite Hs. rewrite Hlst in Hm. apply (i_linked _ I). auto.
+Qed.
+
+Lemma cst_of : forall s t cl, nth_error (clients s) t = Some cl -> cst s t = cpcv cl.
+Proof. intros. unfold cst. now rewrite H. Qed.
+Lemma kstat_of : forall s i k, nth_error (coros s) i = Some k -> kstat s i = kstv k.
+Proof. intros. unfold kstat. now rewrite H. Qed.
+Lemma kex_of : forall s i k, nth_error (coros s) i = Some k -> kex s i = kexec k.
+Proof. intros. unfold kex. now rewrite H. Qed.
+
+(* ------------------------------------------------------------------ primitive updates *)
+Lemma set_nth_oob : forall A (l : list A) n x, (length l <= n)%nat -> set_nth n x l = l.
+Proof. induction l as [|y l IH]; intros [|n] x H; cbn in *; auto; try lia. f_equal. apply IH. lia. Qed.
+Lemma slot_at_put : forall s n sl m,
+  slot_at (put_slot s n sl) m = if (Nat.eqb m n && (n <? nslots s)%nat)%bool then sl else slot_at s m.
+Proof.
+  intros. destruct (Nat.eqb_spec m n) as [->|Hn]; cbn [andb].
+  - destruct (Nat.ltb_spec n (nslots s)); [apply slot_at_put_eq; auto|].
+    unfold slot_at, put_slot. cbn. rewrite set_nth_oob; auto.
+  - apply slot_at_put_ne. auto.
+Qed.
+Lemma unlink_mark_core : forall s n m, same_core (slot_at (unlink_mark s n) m) (slot_at s m).
+Proof.
+  intros. unfold unlink_mark. rewrite slot_at_put. destruct (Nat.eqb_spec m n) as [->|]; cbn [andb];
+    [destruct (n <? nslots s)%nat|]; unfold same_core; cbn; auto 10.
+Qed.
+Lemma unlink_mark_linked : forall s n m, m <> n -> linked (slot_at (unlink_mark s n) m) = linked (slot_at s m).
+Proof. intros. unfold unlink_mark. rewrite slot_at_put. destruct (Nat.eqb_spec m n); [contradiction|]. reflexivity. Qed.
+Lemma vis_eq : forall s l m, lst s = l -> mtx s = m ->
+  vis s = l ++ match m with Some t => chain_pc (cst s t) | None => [] end.
+Proof. intros. unfold vis. now rewrite H, H0. Qed.
+Lemma NoDup_rot : forall (n : nat) r, NoDup (n :: r) -> NoDup (r ++ [n]).
+Proof. intros n r H. inversion H; subst. apply NoDup_app_single; auto. Qed.
+
+Ltac cne := intros; etransitivity; [apply cst_set_ne; auto | reflexivity].
+Ltac ceq H := erewrite cst_set_eq; [reflexivity | exact H].
+Lemma NoDup_app_l : forall A (a b : list A), NoDup (a ++ b) -> NoDup a.
+Proof. induction a as [|x a IH]; intros b H; [constructor|]. inversion H; subst. constructor; [|eapply IH; eauto].
+  intro. apply H2. apply in_app_iff. auto. Qed.
+Lemma NoDup_app_r : forall A (a b : list A), NoDup (a ++ b) -> NoDup b.
+Proof. induction a as [|x a IH]; intros b H; auto. inversion H; subst. eauto. Qed.
+Lemma NoDup_app_disj : forall A (a b : list A) x, NoDup (a ++ b) -> In x a -> In x b -> False.
+Proof. induction a as [|y a IH]; intros b x H Ha Hb; [destruct Ha|]. inversion H; subst. destruct Ha as [->|Ha].
+  - apply H2. apply in_app_iff. auto. - eapply IH; eauto. Qed.
+Lemma slot_at_upd_other : forall s n sl m, m <> n -> same_core (slot_at (put_slot s n sl) m) (slot_at s m).
+Proof. intros. rewrite slot_at_put_ne by auto. unfold same_core; auto 10. Qed.
+
+(* resume_node on a held node *)
+Lemma L_resume : forall s t cl n c',
+  Inv s -> nth_error (clients s) t = Some cl ->
+  In n (held_pc (cst s t)) ->
+  chain_pc (cpcv c') = chain_pc (cst s t) -> NoDup (held_pc (cpcv c')) ->
+  (forall m, m <> n -> (In m (held_pc (cpcv c')) <-> In m (held_pc (cst s t)))) -> ~ In n (held_pc (cpcv c')) ->
+  (forall m, m <> n -> (In m (fin_pc (cpcv c')) <-> In m (fin_pc (cst s t)))) -> In n (fin_pc (cpcv c')) ->
+  can_pc (cpcv c') = can_pc (cst s t) ->
+  Inv (set_client (mark (resume_node s n) n (SFin t)) t c').
+Proof.
+  intros s t cl n c' I Hcl Hin Hch Hnd Hh Hhn Hf Hfn Hc.
+  destruct (i_thread _ I t) as (_ & B & _). destruct (B n Hin) as [Hn Hg].
+  pose proof (i_slot _ I n Hn) as Sn. unfold slot_ok in Sn. rewrite Hg in Sn. destruct Sn as (S1 & S2 & S3 & S4 & S5).
+  unfold resume_node. unfold kstat in S4. destruct (nth_error (coros s) (nco (slot_at s n))) as [k|] eqn:Ek; [|discriminate].
+  rewrite S4.
+  set (s1 := set_ghost _ _ _). set (s' := set_client _ t c').
+  assert (Hs1 : slot_at s1 n = slot_at s n) by reflexivity.
+  assert (Hn1 : (n < nslots s1)%nat) by exact Hn.
+  eapply (Inv_resume s s' t (cpcv c') n) with (sl' := upd_slot (slot_at s n) (ver (slot_at s n)) (linked (slot_at s n)) (SFin t));
+    try reflexivity; auto.
+  - unfold s', mark. change (slot_at (set_client ?x t c') n) with (slot_at x n). rewrite Hs1. apply slot_at_put_eq. exact Hn1.
+  - intros m Hm. unfold s', mark. change (slot_at (set_client ?x t c') m) with (slot_at x m).
+    rewrite slot_at_put_ne by auto. unfold same_core; auto 10.
+  - unfold s', mark. exact (nslots_put s1 n _).
+  - change (kstat s' (nco (slot_at s n))) with (kstat (set_coro s (nco (slot_at s n)) (set_kst k (KResumed (nwi (slot_at s n))))) (nco (slot_at s n))).
+    apply kstat_set_eq. exact Ek.
+  - intros i' Hi'. change (kstat s' i') with (kstat (set_coro s (nco (slot_at s n)) (set_kst k (KResumed (nwi (slot_at s n))))) i').
+    apply kstat_set_ne. auto.
+  - intros i'. change (kex s' i') with (kex (set_coro s (nco (slot_at s n)) (set_kst k (KResumed (nwi (slot_at s n))))) i').
+    eapply kex_set. exact Ek.
+  - unfold s'. cne.
+  - unfold s'. ceq Hcl.
+  - intros m Hm. unfold s', mark. change (slot_at (set_client ?x t c') m) with (slot_at x m). rewrite slot_at_put.
+    destruct (Nat.eqb m n && (n <? nslots s1)%nat)%bool eqn:E.
+    + apply andb_prop in E. destruct E as [E _]. apply Nat.eqb_eq in E. subst m. change (linked (slot_at s n) = true). apply (i_linked _ I). exact Hm.
+    + apply (i_linked _ I). exact Hm.
+Qed.
+
+Lemma vis_same : forall s s' t, lst s' = lst s -> mtx s' = mtx s -> (forall t', t' <> t -> cst s' t' = cst s t') ->
+  chain_pc (cst s' t) = chain_pc (cst s t) -> vis s' = vis s.
+Proof.
+  intros s s' t Hl Hm Hc Ht. unfold vis. rewrite Hl, Hm. destruct (mtx s) as [t0|]; auto. f_equal.
+  destruct (Nat.eq_dec t0 t) as [->|Hn]; auto. rewrite Hc; auto.
+Qed.
+
+Lemma put_linked : forall s n v g m,
+  linked (slot_at (put_slot s n (upd_slot (slot_at s n) v (linked (slot_at s n)) g)) m) = linked (slot_at s m).
+Proof.
+  intros. rewrite slot_at_put. destruct (Nat.eqb_spec m n) as [->|]; cbn [andb]; auto. destruct (n <? nslots s)%nat; auto.
+Qed.
+
+Lemma L_release : forall s t cl n c',
+  Inv s -> nth_error (clients s) t = Some cl ->
+  In n (fin_pc (cst s t)) ->
+  chain_pc (cpcv c') = [] -> chain_pc (cst s t) = [] ->
+  held_pc (cpcv c') = held_pc (cst s t) -> can_pc (cpcv c') = can_pc (cst s t) ->
+  (forall m, m <> n -> (In m (fin_pc (cpcv c')) <-> In m (fin_pc (cst s t)))) -> ~ In n (fin_pc (cpcv c')) ->
+  Inv (set_client (release s n) t c').
+Proof.
+  intros s t cl n c' I Hcl Hin Hch1 Hch2 Hh Hc Hf Hfn.
+  destruct (i_thread _ I t) as (A & B & C & D & _). destruct (C n Hin) as [Hn Hg].
+  pose proof (i_slot _ I n Hn) as Sn. unfold slot_ok in Sn. rewrite Hg in Sn. destruct Sn as (S1 & S2 & S3 & S4).
+  set (s' := set_client _ t c').
+  assert (Hcst : cst s' t = cpcv c') by (unfold s'; ceq Hcl).
+  assert (Hcne : forall t', t' <> t -> cst s' t' = cst s t') by (unfold s'; cne).
+  assert (Hvis : vis s' = vis s) by (apply (vis_same s s' t); auto; rewrite Hcst; congruence).
+  eapply (Inv_trans s s' t (cpcv c') n (upd_slot (slot_at s n) (ver (slot_at s n)) (linked (slot_at s n)) SFree) I Hn);
+    try reflexivity; auto.
+  - intros _. rewrite Hg. discriminate.
+  - unfold s', release. change (slot_at (set_client ?x t c') n) with (slot_at x n).
+    change (slot_at (set_freel ?x ?l) n) with (slot_at x n). apply slot_at_put_eq. exact Hn.
+  - intros m Hm. unfold s', release. change (slot_at (set_client ?x t c') m) with (slot_at x m).
+    change (slot_at (set_freel ?x ?l) m) with (slot_at x m). apply slot_at_upd_other. auto.
+  - unfold s', release. exact (nslots_put s n _).
+  - rewrite Hh. exact A.
+  - intros. rewrite Hh. tauto.
+  - cbn. split; [|discriminate]. intro Hx. rewrite Hh in Hx. destruct (B n Hx). congruence.
+  - cbn. split; [|discriminate]. intro Hx. contradiction.
+  - intros. rewrite Hc. tauto.
+  - cbn. split; [|discriminate]. intro Hx. rewrite Hc in Hx. destruct (D n Hx). congruence.
+  - intro Hx. congruence.
+  - unfold slot_ok. replace (slot_at s' n) with (upd_slot (slot_at s n) (ver (slot_at s n)) (linked (slot_at s n)) SFree).
+    2:{ symmetry. unfold s', release. change (slot_at (set_client ?x t c') n) with (slot_at x n).
+        change (slot_at (set_freel ?x ?l) n) with (slot_at x n). apply slot_at_put_eq. exact Hn. }
+    cbn. repeat split; auto.
+  - intros i j Hk. exfalso. pose proof (i_coro _ I i) as Ci. unfold coro_ok in Ci. rewrite Hk in Ci.
+    destruct Ci as (_ & _ & _ & [Ci|[t0 [Ci|Ci]]]); congruence.
+  - rewrite Hvis. apply (i_vis_nodup _ I).
+  - intros m Hm. now rewrite <- Hvis.
+  - intros m Hm Hm2. rewrite Hvis in Hm2. contradiction.
+  - intro Hx. rewrite Hvis in Hx. exfalso. destruct (i_vis _ I n Hx) as [_ [V|[t0 V]]]; congruence.
+  - change (freel s') with (n :: freel s). constructor; [|apply (i_free_nodup _ I)].
+    intro Hx. destruct (i_free _ I n Hx). congruence.
+  - change (freel s') with (n :: freel s). intros m [<-|Hm]; auto.
+  - change (freel s') with (n :: freel s). intros m Hm. cbn. auto.
+  - intros m Hm. unfold s', release. change (slot_at (set_client ?x t c') m) with (slot_at x m).
+    change (slot_at (set_freel ?x ?l) m) with (slot_at x m). rewrite put_linked. apply (i_linked _ I). exact Hm.
+Qed.
+
+Lemma slot_at_slots : forall s s' n sl m, slots s' = set_nth n sl (slots s) ->
+  slot_at s' m = slot_at (put_slot s n sl) m.
+Proof. intros. unfold slot_at, put_slot. cbn. now rewrite H. Qed.
+
+Lemma L_take : forall s s' t n g' lk p',
+  Inv s -> (n < nslots s)%nat -> sst (slot_at s n) = SQueued -> (g' = SCan t \/ g' = SHeld t) ->
+  slots s' = set_nth n (upd_slot (slot_at s n) (ver (slot_at s n) + 1) lk g') (slots s) ->
+  coros s' = coros s -> nver s' = nver s -> tokens s' = tokens s -> bad s' = bad s -> rlog s' = rlog s ->
+  freel s' = freel s ->
+  (forall t', t' <> t -> cst s' t' = cst s t') -> cst s' t = p' ->
+  NoDup (held_pc p') ->
+  (forall m, m <> n -> (In m (held_pc p') <-> In m (held_pc (cst s t)))) -> (In n (held_pc p') <-> g' = SHeld t) ->
+  (forall m, m <> n -> (In m (fin_pc p') <-> In m (fin_pc (cst s t)))) -> ~ In n (fin_pc p') ->
+  (forall m, m <> n -> (In m (can_pc p') <-> In m (can_pc (cst s t)))) -> (In n (can_pc p') <-> g' = SCan t) ->
+  (chain_pc p' <> [] -> mtx s' = Some t) ->
+  (mtx s' = mtx s \/ (mtx s = None /\ mtx s' = Some t) \/ (mtx s = Some t /\ mtx s' = None)) ->
+  NoDup (vis s') -> (forall m, In m (vis s') -> In m (vis s)) ->
+  (forall m, In m (vis s) -> ~ In m (vis s') -> m = n \/ exists t', sst (slot_at s m) = SCan t') ->
+  (In n (vis s') -> g' = SCan t) ->
+  (forall m, In m (lst s') -> m <> n /\ In m (lst s) \/ (m = n /\ lk = true)) ->
+  Inv s'.
+Proof.
+  intros s s' t n g' lk p' I Hn Hg Hg' Hsl Hco Hnv Htk Hbad Hlog Hfr Hcne Hct Hhnd Hh Hhn Hf Hfn Hc Hcn Hch Hm
+         Hvnd Hvin Hvdrop Hvn Hlk.
+  pose proof (i_slot _ I n Hn) as Sn. unfold slot_ok in Sn. rewrite Hg in Sn. destruct Sn as (S1 & S2 & S3 & S4 & S5).
+  set (sl' := upd_slot (slot_at s n) (ver (slot_at s n) + 1) lk g').
+  assert (Hsn : slot_at s' n = sl').
+  { rewrite (slot_at_slots s s' n sl' n Hsl). apply slot_at_put_eq. exact Hn. }
+  assert (Hso : forall m, m <> n -> slot_at s' m = slot_at s m).
+  { intros m Hmn. rewrite (slot_at_slots s s' n sl' m Hsl). apply slot_at_put_ne. auto. }
+  assert (Hk : forall i, kstat s' i = kstat s i) by (intro; apply kstat_frame; auto).
+  assert (Hx : forall i, kex s' i = kex s i) by (intro; apply kex_frame; auto).
+  eapply (Inv_trans s s' t p' n sl' I Hn); try reflexivity; auto.
+  - unfold sl'; cbn. destruct Hg' as [->| ->]; auto.
+  - cbn. lia.
+  - cbn. lia.
+  - intros m Hmn. rewrite Hso by auto. unfold same_core; auto 10.
+  - unfold nslots. rewrite Hsl. apply length_set_nth.
+  - unfold sl'; cbn. split; intro Hx'; [|destruct Hg' as [->| ->]; congruence]. contradiction.
+  - unfold slot_ok. rewrite Hsn. unfold sl'; cbn. rewrite Hnv, Hx, Hk. split; auto. split; auto.
+    destruct Hg' as [->| ->].
+    + repeat split; auto; try lia. rewrite Hct. apply can_pc_in. apply Hcn. reflexivity.
+    + repeat split; auto; try lia. rewrite Hct. apply Hhn. reflexivity.
+  - intros i j _. unfold sl'; cbn. destruct Hg' as [->| ->]; split; discriminate.
+  - intro Hx'. unfold sl'; cbn. exists t. symmetry. rewrite (Hvn Hx'). reflexivity.
+  - rewrite Hfr. apply (i_free_nodup _ I).
+  - intros m Hm'. rewrite Hfr in Hm'. auto.
+  - intros m Hm'. rewrite Hfr. auto.
+  - intros m Hm'. destruct (Hlk m Hm') as [[Hmn Hin]|[-> ->]].
+    + rewrite Hso by auto. apply (i_linked _ I). exact Hin.
+    + rewrite Hsn. reflexivity.
+Qed.
+Ltac simple_move s t p I Hp Hcl :=
+  apply (Inv_move_simple s _ t p I); try reflexivity; try (rewrite Hp; reflexivity);
+  first [ solve [cne] | solve [ceq Hcl] | (cbn; congruence) ].
+
+Lemma w1_pop_inv : forall s t cl n r p,
+  Inv s -> nth_error (clients s) t = Some cl -> cst s t = p -> held_pc p = [] -> fin_pc p = [] -> can_pc p = [] ->
+  lst s = n :: r ->
+  (mtx s = None /\ chain_pc p = []) \/ (mtx s = Some t /\ exists q, chain_pc p = [q] /\ exists t', sst (slot_at s q) = SCan t') ->
+  Inv (set_client (set_mtx (set_nnext (unlink_mark (set_lst s r) n) n 0) (Some t)) t (goto cl (W1Take n))).
+Proof.
+  intros s t cl n r p I Hcl Hp Hh Hf Hc El Hm.
+  set (s' := set_client _ t _).
+  assert (Hv' : vis s' = r ++ [n]).
+  { rewrite (vis_eq s' r (Some t)) by reflexivity. unfold s'. erewrite cst_set_eq by exact Hcl. reflexivity. }
+  assert (Hv : exists c, vis s = (n :: r) ++ c /\ (c = [] \/ exists q t', c = [q] /\ sst (slot_at s q) = SCan t')).
+  { destruct Hm as [[Em Ec]|[Em (q & Ec & t' & Eq)]].
+    - exists []. split; auto. rewrite (vis_eq s (n :: r) None); auto.
+    - exists [q]. split; eauto. rewrite (vis_eq s (n :: r) (Some t)); auto. rewrite Hp, Ec. reflexivity. }
+  destruct Hv as (c & Hv & Hc').
+  pose proof (i_vis_nodup _ I) as Hnd. rewrite Hv in Hnd.
+  apply (Inv_move s s' t (W1Take n) I); try reflexivity; try (rewrite Hp; cbn; congruence).
+  - intro m. exact (unlink_mark_core (set_lst s r) n m).
+  - exact (nslots_put (set_lst s r) n _).
+  - unfold s'; cne.
+  - unfold s'; ceq Hcl.
+  - destruct Hm as [[Em _]|[Em _]]; [right; left; split; auto | left; cbn; congruence].
+  - rewrite Hv'. apply NoDup_rot. apply NoDup_app_l in Hnd. exact Hnd.
+  - intros m Hm'. rewrite Hv' in Hm'. rewrite Hv. apply in_app_iff in Hm'. apply in_app_iff. left. cbn in *. intuition.
+  - intros m Hm1 Hm2. rewrite Hv in Hm1. rewrite Hv' in Hm2. apply in_app_iff in Hm1. destruct Hm1 as [Hm1|Hm1].
+    + exfalso. apply Hm2. apply in_app_iff. cbn in *. intuition.
+    + destruct Hc' as [->|(q & t' & -> & Hq)]; [destruct Hm1|]. destruct Hm1 as [<-|[]]. eauto.
+  - intros m Hm'. change (lst s') with r in Hm'.
+    assert (m <> n). { intro; subst m. apply NoDup_app_l in Hnd. inversion Hnd; auto. }
+    change (slot_at s' m) with (slot_at (unlink_mark (set_lst s r) n) m). rewrite unlink_mark_linked by auto.
+    change (slot_at (set_lst s r) m) with (slot_at s m). apply (i_linked _ I). rewrite El. cbn. auto.
+Qed.
+Lemma set_nth_set_nth : forall A (l : list A) n x y, set_nth n x (set_nth n y l) = set_nth n x l.
+Proof. induction l as [|z l IH]; intros [|n] x y; cbn; auto. f_equal. apply IH. Qed.
+
+Lemma chain_next_same : forall l s,
+  slots (chain_next s l) = slots s /\ coros (chain_next s l) = coros s /\ clients (chain_next s l) = clients s /\
+  lst (chain_next s l) = lst s /\ mtx (chain_next s l) = mtx s /\ freel (chain_next s l) = freel s /\
+  nver (chain_next s l) = nver s /\ tokens (chain_next s l) = tokens s /\ bad (chain_next s l) = bad s /\
+  rlog (chain_next s l) = rlog s.
+Proof.
+  induction l as [|a l IH]; intro s; cbn [chain_next]; [repeat split; reflexivity|].
+  destruct (IH (set_nnext s a (enc (hd_error l)))) as (A1 & A2 & A3 & A4 & A5 & A6 & A7 & A8 & A9 & A10).
+  rewrite A1, A2, A3, A4, A5, A6, A7, A8, A9, A10. repeat split; reflexivity.
+Qed.
+
+Lemma find_token_in : forall l i j id, find_token l i j = Some id -> In ((i, j), id) l.
+Proof.
+  induction l as [|[[a b] id'] l IH]; intros i j id H; cbn in H; [discriminate|].
+  destruct (Nat.eqb a i && Nat.eqb b j)%bool eqn:E.
+  - apply andb_prop in E. destruct E as [E1 E2]. apply Nat.eqb_eq in E1, E2. subst. inversion H; subst. cbn; auto.
+  - cbn. right. eauto.
+Qed.
+
+Lemma take_ok_spec : forall s n v, take_ok s n v = true <-> (n < nslots s)%nat /\ ver (slot_at s n) = v.
+Proof.
+  intros. unfold take_ok, nslots. rewrite andb_true_iff, Nat.ltb_lt, Z.eqb_eq. tauto.
+Qed.
+
+(* one iteration of the detach loop of wake_all *)
+Lemma watake_inv : forall s t cl n r taken p' s',
+  Inv s -> nth_error (clients s) t = Some cl -> cst s t = WATake (n :: r) taken ->
+  let s0 := unlink_mark s n in
+  let ok := take_ok s0 n (nidv (slot_at s0 n)) in
+  let s1 := if ok then take s0 n (SHeld t) else s0 in
+  let taken' := if ok then taken ++ [n] else taken in
+  held_pc p' = taken' -> chain_pc p' = r -> fin_pc p' = [] -> can_pc p' = [] ->
+  slots s' = slots s1 -> coros s' = coros s -> nver s' = nver s -> tokens s' = tokens s -> bad s' = bad s ->
+  rlog s' = rlog s -> freel s' = freel s -> lst s' = lst s ->
+  mtx s' = match r with [] => None | _ => Some t end ->
+  (forall t', t' <> t -> cst s' t' = cst s t') -> cst s' t = p' ->
+  Inv s'.
+Proof.
+  intros s t cl n r taken p' s' I Hcl Hp s0 ok s1 taken' Hh Hch Hf Hc Hsl Hco Hnv Htk Hbad Hlog Hfr Hlst Hmtx Hcne Hct.
+  destruct (i_thread _ I t) as (A & B & _ & _ & E). rewrite Hp in A, B, E. cbn [held_pc chain_pc] in A, B, E.
+  assert (Em : mtx s = Some t) by (apply E; discriminate).
+  assert (Hv : vis s = lst s ++ n :: r) by (rewrite (vis_eq s (lst s) (Some t)); auto; now rewrite Hp).
+  assert (Hv' : vis s' = lst s ++ r).
+  { rewrite (vis_eq s' (lst s) (mtx s')); auto. rewrite Hmtx. destruct r; [now rewrite app_nil_r|]. rewrite Hct, Hch. reflexivity. }
+  pose proof (i_vis_nodup _ I) as Hnd. rewrite Hv in Hnd.
+  assert (Hnin : In n (vis s)) by (rewrite Hv; apply in_app_iff; cbn; auto).
+  destruct (i_vis _ I n Hnin) as [Hn Hst].
+  assert (Hnd' : NoDup (lst s ++ r)) by (apply NoDup_remove_1 in Hnd; exact Hnd).
+  assert (Hnn : ~ In n (lst s ++ r)) by (apply NoDup_remove_2 in Hnd; exact Hnd).
+  assert (Hcore : forall m, same_core (slot_at s0 m) (slot_at s m)) by (intro; apply unlink_mark_core).
+  assert (Hs0n : slot_at s0 n = upd_slot (slot_at s n) (ver (slot_at s n)) false (sst (slot_at s n))).
+  { unfold s0, unlink_mark. apply slot_at_put_eq. exact Hn. }
+  assert (Hvin : forall m, In m (vis s') -> In m (vis s)).
+  { intros m Hm. rewrite Hv' in Hm. rewrite Hv. apply in_app_iff in Hm. apply in_app_iff. cbn. tauto. }
+  assert (Hmt : mtx s' = mtx s \/ mtx s = None /\ mtx s' = Some t \/ mtx s = Some t /\ mtx s' = None).
+  { rewrite Hmtx, Em. destruct r; auto. }
+  assert (Hcm : chain_pc p' <> [] -> mtx s' = Some t).
+  { rewrite Hch, Hmtx. destruct r; auto. intro H; contradiction. }
+  assert (Hlk : forall m, In m (lst s') -> m <> n /\ In m (lst s)).
+  { intros m Hm. rewrite Hlst in Hm. split; auto. intro; subst m. apply Hnn. apply in_app_iff. auto. }
+  destruct ok eqn:Eok; unfold ok in Eok.
+  - (* taken *)
+    apply take_ok_spec in Eok. destruct Eok as [_ Ever]. rewrite Hs0n in Ever. cbn in Ever.
+    assert (Hq : sst (slot_at s n) = SQueued).
+    { destruct Hst as [|[t' Hst]]; auto. exfalso. pose proof (i_slot _ I n Hn) as Sn. unfold slot_ok in Sn. rewrite Hst in Sn.
+      destruct Sn as (_ & _ & _ & _ & Sv). lia. }
+    apply (L_take s s' t n (SHeld t) false p' I Hn Hq); auto.
+    + assert (Hs0 : slots s0 = set_nth n (upd_slot (slot_at s n) (ver (slot_at s n)) false (sst (slot_at s n))) (slots s))
+        by reflexivity.
+      rewrite Hsl.
+      change (slots s1) with (set_nth n (upd_slot (slot_at s0 n) (ver (slot_at s0 n) + 1) (linked (slot_at s0 n)) (SHeld t)) (slots s0)).
+      rewrite Hs0n, Hs0, set_nth_set_nth. reflexivity.
+    + rewrite Hh. unfold taken'. apply NoDup_app_single; auto. intro Hx. destruct (B n Hx). congruence.
+    + intros m Hm. rewrite Hh, Hp. unfold taken'. cbn [held_pc]. rewrite in_app_iff. cbn. intuition congruence.
+    + rewrite Hh. unfold taken'. rewrite in_app_iff. cbn. intuition.
+    + intros m Hm. rewrite Hf, Hp. cbn. tauto.
+    + rewrite Hf. auto.
+    + intros m Hm. rewrite Hc, Hp. cbn. tauto.
+    + rewrite Hc. cbn. split; [intros []|discriminate].
+    + rewrite Hv'. exact Hnd'.
+    + intros m Hm Hm'. rewrite Hv in Hm. rewrite Hv' in Hm'. left. apply in_app_iff in Hm. destruct Hm as [Hm|[Hm|Hm]]; auto;
+        exfalso; apply Hm'; apply in_app_iff; auto.
+    + intro Hx. rewrite Hv' in Hx. contradiction.
+  - (* not taken: owned by a canceller *)
+    assert (Hcan : exists t', sst (slot_at s n) = SCan t').
+    { destruct Hst as [Hq|]; auto. exfalso. pose proof (i_slot _ I n Hn) as Sn. unfold slot_ok in Sn. rewrite Hq in Sn.
+      destruct Sn as (_ & _ & _ & Sv & _). assert (take_ok s0 n (nidv (slot_at s0 n)) = true); [|congruence].
+      apply take_ok_spec. split; [unfold s0, unlink_mark; rewrite nslots_put; exact Hn|]. rewrite Hs0n. cbn. exact Sv. }
+    apply (Inv_move s s' t p' I); auto.
+    + intro m. unfold slot_at. rewrite Hsl. exact (Hcore m).
+    + unfold nslots. rewrite Hsl. unfold s1, s0, unlink_mark. exact (nslots_put s n _).
+    + rewrite Hh, Hp. reflexivity.
+    + rewrite Hf, Hp. reflexivity.
+    + rewrite Hc, Hp. reflexivity.
+    + rewrite Hv'. exact Hnd'.
+    + intros m Hm Hm'. rewrite Hv in Hm. rewrite Hv' in Hm'. apply in_app_iff in Hm. destruct Hm as [Hm|[Hm|Hm]].
+      * exfalso; apply Hm'; apply in_app_iff; auto.
+      * subst m. exact Hcan.
+      * exfalso; apply Hm'; apply in_app_iff; auto.
+    + intros m Hm. destruct (Hlk m Hm) as [Hmn Hin]. unfold slot_at. rewrite Hsl.
+      change (linked (slot_at (unlink_mark s n) m) = true). rewrite unlink_mark_linked by auto. apply (i_linked _ I). exact Hin.
+Qed.
+Lemma L_cklock : forall s t cl n,
+  Inv s -> nth_error (clients s) t = Some cl -> cst s t = CKLock n -> mtx s = None ->
+  Inv (set_client (mark (if linked (slot_at s n) then set_lst s (remove_nat n (lst s)) else s) n (SHeld t)) t
+                  (goto cl (CKResume n))).
+Proof.
+  intros s t cl n I Hcl Hp Em.
+  destruct (i_thread _ I t) as (_ & _ & _ & TD & _). rewrite Hp in TD. destruct (TD n) as [Hn Hg]; [cbn; auto|].
+  pose proof (i_slot _ I n Hn) as Sn. unfold slot_ok in Sn. rewrite Hg in Sn. destruct Sn as (S1 & S2 & S3 & S4 & S5).
+  set (L' := if linked (slot_at s n) then remove_nat n (lst s) else lst s).
+  set (s1 := if linked (slot_at s n) then set_lst s (remove_nat n (lst s)) else s).
+  set (s' := set_client _ t _).
+  assert (Hl' : lst s' = L') by (unfold s', s1, L'; destruct (linked (slot_at s n)); reflexivity).
+  assert (Hs1 : slots s1 = slots s) by (unfold s1; destruct (linked (slot_at s n)); reflexivity).
+  assert (Hs1n : slot_at s1 n = slot_at s n) by (apply slot_at_frame; auto).
+  assert (Hrest : coros s' = coros s /\ nver s' = nver s /\ tokens s' = tokens s /\ bad s' = bad s /\ rlog s' = rlog s /\
+                  freel s' = freel s /\ mtx s' = mtx s).
+  { unfold s', s1. destruct (linked (slot_at s n)); repeat split; reflexivity. }
+  destruct Hrest as (R1 & R2 & R3 & R4 & R5 & R6 & R7).
+  assert (Hv : vis s = lst s) by (rewrite (vis_eq s (lst s) None); auto; apply app_nil_r).
+  assert (Hv' : vis s' = L') by (rewrite (vis_eq s' L' None); auto; [apply app_nil_r | congruence]).
+  pose proof (i_vis_nodup _ I) as Hnd. rewrite Hv in Hnd.
+  assert (HnL : ~ In n L').
+  { unfold L'. destruct (linked (slot_at s n)) eqn:El; [apply remove_nat_not_in|]. intro Hx. pose proof (i_linked _ I n Hx). congruence. }
+  assert (HLin : forall m, In m L' -> In m (lst s)).
+  { unfold L'. destruct (linked (slot_at s n)); auto. intros m. apply remove_nat_in. }
+  assert (HLkeep : forall m, In m (lst s) -> m <> n -> In m L').
+  { unfold L'. destruct (linked (slot_at s n)); auto. intros m. apply remove_nat_keep. }
+  assert (HLnd : NoDup L').
+  { unfold L'. destruct (linked (slot_at s n)); auto. apply remove_nat_nodup. auto. }
+  assert (Hc1 : cst s' t = CKResume n).
+  { unfold s'. erewrite cst_set_eq; [reflexivity|]. unfold s1. destruct (linked (slot_at s n)); exact Hcl. }
+  assert (Hc2 : forall t', t' <> t -> cst s' t' = cst s t').
+  { intros t' Ht'. unfold s'. etransitivity; [apply cst_set_ne; auto|]. apply cst_frame. unfold s1. destruct (linked (slot_at s n)); reflexivity. }
+  assert (Hsn : slot_at s' n = upd_slot (slot_at s n) (ver (slot_at s n)) (linked (slot_at s n)) (SHeld t)).
+  { unfold s', mark. change (slot_at (set_client ?x t ?c) n) with (slot_at x n). rewrite Hs1n.
+    apply slot_at_put_eq. unfold nslots. rewrite Hs1. exact Hn. }
+  assert (Hso : forall m, m <> n -> slot_at s' m = slot_at s m).
+  { intros m Hm. unfold s', mark. change (slot_at (set_client ?x t ?c) m) with (slot_at x m). rewrite slot_at_put_ne by auto.
+    apply slot_at_frame. exact Hs1. }
+  eapply (Inv_trans s s' t (CKResume n) n (upd_slot (slot_at s n) (ver (slot_at s n)) (linked (slot_at s n)) (SHeld t)) I Hn); try reflexivity; eauto.
+  - cbn. rewrite Hg. intros _. discriminate.
+  - intros m Hm. rewrite Hso by auto. unfold same_core; auto 10.
+  - unfold s', mark. etransitivity; [exact (nslots_put s1 n _)|]. unfold nslots. now rewrite Hs1.
+  - repeat constructor. intros [].
+  - intros m Hm. rewrite Hp. cbn. intuition congruence.
+  - cbn. intuition.
+  - intros m Hm. rewrite Hp. cbn. tauto.
+  - cbn. split; [intros []|discriminate].
+  - intros m Hm. rewrite Hp. cbn. intuition congruence.
+  - cbn. split; [intros []|discriminate].
+  - cbn. intro H; contradiction.
+  - unfold slot_ok. rewrite Hsn. cbn [ver nidv nco nwi nex sst upd_slot]. rewrite R2, Hc1.
+    rewrite (kex_frame s s') by exact R1. rewrite (kstat_frame s s') by exact R1.
+    repeat split; auto. cbn; auto.
+  - intros i j _. cbn. split; discriminate.
+  - rewrite Hv'. exact HLnd.
+  - intros m Hm. rewrite Hv' in Hm. rewrite Hv. auto.
+  - intros m Hm Hm'. rewrite Hv in Hm. rewrite Hv' in Hm'. left. destruct (Nat.eq_dec m n); auto. exfalso. auto.
+  - intro Hx. rewrite Hv' in Hx. contradiction.
+  - rewrite R6. apply (i_free_nodup _ I).
+  - intros m Hm. rewrite R6 in Hm. auto.
+  - intros m Hm. rewrite R6. auto.
+  - intros m Hm. rewrite Hl' in Hm. assert (m <> n) by (intro; subst; contradiction). rewrite Hso by auto.
+    apply (i_linked _ I). auto.
+Qed.
+
+Lemma enc_some_nz : forall m, (enc (Some m) =? 0) = false.
+Proof. intro. unfold enc. apply Z.eqb_neq. lia. Qed.
+
+Lemma step_client_inv : forall s t cl s',
+  Inv s -> nth_error (clients s) t = Some cl -> step_client cfg_fixed s t cl = Some s' -> Inv s'.
+Proof.
+  intros s t cl s' I Hcl Hst.
+  pose proof (cst_of _ _ _ Hcl) as Hp.
+  destruct (i_thread _ I t) as (TA & TB & TC & TD & TE).
+  unfold step_client in Hst. destruct (cpcv cl) eqn:Epc; rewrite Hp in TA, TB, TC, TD, TE; cbn [held_pc fin_pc can_pc chain_pc] in *.
+  - (* CIdle *)
+    destruct (nth_error (cprog cl) (copi cl)) as [o|]; [|discriminate]. destruct o.
+    + (* OWake1 *)
+      destruct (mtx s) eqn:Em; [discriminate|]. inversion Hst; subst s'; clear Hst.
+      unfold w1_pop. destruct (lst s) as [|n r] eqn:El.
+      * simple_move s t CIdle I Hp Hcl.
+      * cbn [negb]. eapply w1_pop_inv; eauto.
+    + (* OWakeAll *)
+      destruct (mtx s) eqn:Em; [discriminate|]. destruct (lst s) as [|n r] eqn:El; inversion Hst; subst s'; clear Hst.
+      * simple_move s t CIdle I Hp Hcl.
+      * set (s' := set_client _ t _).
+        assert (Hv : vis s = n :: r) by (rewrite (vis_eq s (n :: r) None); auto; apply app_nil_r).
+        assert (Hv' : vis s' = n :: r).
+        { rewrite (vis_eq s' [] (Some t)) by reflexivity. unfold s'. erewrite cst_set_eq by exact Hcl. reflexivity. }
+        apply (Inv_move s s' t (WATake (n :: r) []) I); try reflexivity; try (rewrite Hp; reflexivity).
+        -- sc.
+        -- unfold s'; cne.
+        -- unfold s'; ceq Hcl.
+        -- right; left; auto.
+        -- rewrite Hv', <- Hv. apply (i_vis_nodup _ I).
+        -- intros m Hm. congruence.
+        -- intros m Hm Hm'. exfalso. apply Hm'. congruence.
+        -- intros m [].
+    + (* OCancel *)
+      destruct (find_token (tokens s) i j) as [[n v]|] eqn:Ef.
+      * destruct (take_ok s n v) eqn:Et; inversion Hst; subst s'; clear Hst.
+        -- apply take_ok_spec in Et. destruct Et as [Hn Hv].
+           apply find_token_in in Ef. pose proof (i_tok _ I _ Ef) as Tk. unfold tok_ok in Tk. cbn in Tk.
+           destruct Tk as (_ & _ & Tq). specialize (Tq (eq_sym Hv)).
+           set (s' := set_client _ t _).
+           assert (Hc1 : cst s' t = CKLock n) by (unfold s'; ceq Hcl).
+           assert (Hc2 : forall t', t' <> t -> cst s' t' = cst s t') by (unfold s'; cne).
+           assert (Hvis : vis s' = vis s) by (apply (vis_same s s' t); auto; rewrite Hc1, Hp; reflexivity).
+           apply (L_take s s' t n (SCan t) (linked (slot_at s n)) (CKLock n) I Hn Tq); auto; try reflexivity.
+           ++ intros m Hm. rewrite Hp. cbn. tauto.
+           ++ cbn. split; [intros []|discriminate].
+           ++ intros m Hm. rewrite Hp. cbn. tauto.
+           ++ intros m Hm. rewrite Hp. cbn. intuition congruence.
+           ++ cbn. intuition.
+           ++ rewrite Hvis. apply (i_vis_nodup _ I).
+           ++ intros m Hm. congruence.
+           ++ intros m Hm Hm'. exfalso. apply Hm'. congruence.
+           ++ intros m Hm. change (lst s') with (lst s) in Hm. destruct (Nat.eq_dec m n) as [->|Hmn]; auto.
+              right. split; auto. apply (i_linked _ I). exact Hm.
+        -- simple_move s t CIdle I Hp Hcl.
+      * inversion Hst; subst s'; clear Hst. simple_move s t CIdle I Hp Hcl.
+    + inversion Hst; subst s'; clear Hst. simple_move s t CIdle I Hp Hcl.
+    + destruct (n <=? length (tokens s))%nat; inversion Hst; subst s'; clear Hst. simple_move s t CIdle I Hp Hcl.
+  - (* W1Take n *)
+    assert (Em : mtx s = Some t) by (apply TE; discriminate).
+    assert (Hv : vis s = lst s ++ [n]) by (rewrite (vis_eq s (lst s) (Some t)); auto; now rewrite Hp).
+    pose proof (i_vis_nodup _ I) as Hnd. rewrite Hv in Hnd.
+    assert (Hnin : In n (vis s)) by (rewrite Hv; apply in_app_iff; cbn; auto).
+    destruct (i_vis _ I n Hnin) as [Hn Hstn].
+    pose proof (i_slot _ I n Hn) as Sn. unfold slot_ok in Sn.
+    destruct (take_ok s n (nidv (slot_at s n))) eqn:Et; cbn [cfg_fixed w1_stop_ok w1_stop_fail w1_adv] in Hst.
+    + inversion Hst; subst s'; clear Hst.
+      apply take_ok_spec in Et. destruct Et as [_ Ever].
+      assert (Hq : sst (slot_at s n) = SQueued).
+      { destruct Hstn as [|[t' Hx]]; auto. rewrite Hx in Sn. destruct Sn as (_ & _ & _ & _ & Sv). lia. }
+      set (s' := set_client _ t _).
+      assert (Hv' : vis s' = lst s ++ []) by (rewrite (vis_eq s' (lst s) None); reflexivity).
+      assert (Hc1 : cst s' t = W1Resume n) by (unfold s'; ceq Hcl).
+      assert (Hc2 : forall t', t' <> t -> cst s' t' = cst s t') by (unfold s'; cne).
+      apply (L_take s s' t n (SHeld t) (linked (slot_at s n)) (W1Resume n) I Hn Hq); auto; try reflexivity.
+      * repeat constructor. intros [].
+      * intros m Hm. rewrite Hp. cbn. intuition congruence.
+      * cbn. intuition.
+      * intros m Hm. rewrite Hp. cbn. tauto.
+      * intros m Hm. rewrite Hp. cbn. tauto.
+      * cbn. split; [intros []|discriminate].
+      * cbn. intro H; contradiction.
+      * rewrite Hv', app_nil_r. eapply NoDup_app_l; eauto.
+      * intros m Hm. rewrite Hv' in Hm. rewrite app_nil_r in Hm. rewrite Hv. apply in_app_iff. auto.
+      * intros m Hm Hm'. rewrite Hv in Hm. rewrite Hv', app_nil_r in Hm'. apply in_app_iff in Hm. destruct Hm as [Hm|[Hm|[]]]; auto.
+        contradiction.
+      * intro Hx. rewrite Hv', app_nil_r in Hx. exfalso. eapply NoDup_app_disj; eauto. cbn; auto.
+      * intros m Hm. change (lst s') with (lst s) in Hm. left. split; auto. intro; subst m.
+        eapply NoDup_app_disj; eauto. cbn; auto.
+    + assert (Hcan : exists t', sst (slot_at s n) = SCan t').
+      { destruct Hstn as [Hq|]; auto. exfalso. rewrite Hq in Sn. destruct Sn as (_ & _ & _ & Sv & _).
+        assert (take_ok s n (nidv (slot_at s n)) = true); [|congruence]. apply take_ok_spec. auto. }
+      unfold w1_pop in Hst. destruct (lst s) as [|m r] eqn:El.
+      * assert (s' = set_client (set_mtx s None) t (finish_op cl (RW1 0))).
+        { destruct (negb (enc (hd_error []) =? 0)); inversion Hst; reflexivity. }
+        subst s'. clear Hst. set (s' := set_client _ t _).
+        assert (Hv' : vis s' = []) by (rewrite (vis_eq s' (lst s) None); try reflexivity; rewrite El; reflexivity).
+        apply (Inv_move s s' t CIdle I); try reflexivity; try (rewrite Hp; reflexivity).
+        -- sc.
+        -- unfold s'; cne.
+        -- unfold s'; ceq Hcl.
+        -- cbn. intro H; contradiction.
+        -- right; right; auto.
+        -- rewrite Hv'. constructor.
+        -- intros q Hq. rewrite Hv' in Hq. destruct Hq.
+        -- intros q Hq _. rewrite Hv in Hq. cbn in Hq. destruct Hq as [<-|[]]. exact Hcan.
+        -- intros q Hq. change (lst s') with (lst s) in Hq. rewrite El in Hq. destruct Hq.
+      * cbn [hd_error] in Hst. rewrite enc_some_nz in Hst. cbn [negb] in Hst. inversion Hst; subst s'; clear Hst.
+        eapply (w1_pop_inv s t cl m r (W1Take n)); eauto.
+        right. split; auto. exists n. split; auto.
+  - (* W1Resume n *)
+    inversion Hst; subst s'; clear Hst.
+    apply (L_resume s t cl n (goto cl (W1Finish n)) I Hcl); rewrite ?Hp; cbn; auto; try tauto.
+    + constructor.
+    + intros m Hm. intuition congruence.
+    + intros m Hm. intuition congruence.
+  - (* W1Finish n *)
+    inversion Hst; subst s'; clear Hst.
+    apply (L_release s t cl n (finish_op cl (RW1 1)) I Hcl); rewrite ?Hp; cbn; auto; try tauto.
+    intros m Hm. intuition congruence.
+  - (* WATake *)
+    destruct pend as [|n r]; [discriminate|].
+    destruct r as [|n' r'].
+    + (* last node: unlock *)
+      set (s0 := unlink_mark s n) in *. set (ok := take_ok s0 n (nidv (slot_at s0 n))) in *.
+      set (s1 := if ok then take s0 n (SHeld t) else s0) in *. set (taken' := if ok then taken ++ [n] else taken) in *.
+      destruct (chain_next_same taken' s1) as (C1 & C2 & C3 & C4 & C5 & C6 & C7 & C8 & C9 & C10).
+      assert (Hs1 : coros s1 = coros s /\ nver s1 = nver s /\ tokens s1 = tokens s /\ bad s1 = bad s /\ rlog s1 = rlog s /\
+                    freel s1 = freel s /\ lst s1 = lst s /\ clients s1 = clients s).
+      { unfold s1. destruct ok; repeat split; reflexivity. }
+      destruct Hs1 as (D2 & D7 & D8 & D9 & D10 & D6 & D4 & D3).
+      destruct taken' as [|a todo] eqn:Etk; inversion Hst; subst s'; clear Hst.
+      * apply (watake_inv s t cl n [] taken CIdle _ I Hcl Hp); fold s0; fold ok; fold s1; try reflexivity;
+          [ symmetry; exact Etk | exact D2 | exact D7 | exact D8 | exact D9 | exact D10 | exact D6 | exact D4 | | ].
+        -- intros t' Ht'. etransitivity; [apply cst_set_ne; auto|]. apply cst_frame. exact D3.
+        -- erewrite cst_set_eq; [reflexivity|]. cbn. rewrite D3. exact Hcl.
+      * apply (watake_inv s t cl n [] taken (WAResume a todo 0) _ I Hcl Hp); fold s0; fold ok; fold s1; try reflexivity;
+          [ symmetry; exact Etk | exact C1 | exact (eq_trans C2 D2) | exact (eq_trans C7 D7) | exact (eq_trans C8 D8)
+          | exact (eq_trans C9 D9) | exact (eq_trans C10 D10) | exact (eq_trans C6 D6) | exact (eq_trans C4 D4) | | ].
+        -- intros t' Ht'. etransitivity; [apply cst_set_ne; auto|]. apply cst_frame. exact (eq_trans C3 D3).
+        -- erewrite cst_set_eq; [reflexivity|]. transitivity (nth_error (clients s) t); [f_equal; exact (eq_trans C3 D3) | exact Hcl].
+    + inversion Hst; subst s'; clear Hst.
+      set (s0 := unlink_mark s n). set (ok := take_ok s0 n (nidv (slot_at s0 n))).
+      apply (watake_inv s t cl n (n' :: r') taken (WATake (n' :: r') (if ok then taken ++ [n] else taken)) _ I Hcl Hp);
+        fold s0; fold ok; try reflexivity; try (destruct ok; reflexivity).
+      -- assert (Em : mtx s = Some t) by (apply TE; discriminate). destruct ok; exact Em.
+      -- intros t' Ht'. etransitivity; [apply cst_set_ne; auto|]. apply cst_frame. destruct ok; reflexivity.
+      -- erewrite cst_set_eq; [reflexivity|]. destruct ok; exact Hcl.
+  - (* WAResume *)
+    inversion Hst; subst s'; clear Hst. inversion TA; subst.
+    apply (L_resume s t cl cur (goto cl (WAFinish cur todo cnt)) I Hcl); rewrite ?Hp; cbn; auto; try tauto.
+    + intros m Hm. intuition congruence.
+    + intros m Hm. intuition congruence.
+  - (* WAFinish *)
+    inversion Hst; subst s'; clear Hst.
+    apply (L_release s t cl cur (goto cl (WANext cur todo cnt)) I Hcl); rewrite ?Hp; cbn; auto; try tauto.
+    intros m Hm. intuition congruence.
+  - (* WANext *)
+    cbn [cfg_fixed wa_adv wa_saved] in Hst. rewrite dec_enc in Hst.
+    destruct todo as [|a r]; cbn [hd_error tl] in Hst; inversion Hst; subst s'; clear Hst.
+    + simple_move s t CIdle I Hp Hcl.
+    + simple_move s t (WAResume a r (cnt + 1)) I Hp Hcl.
+  - (* CKLock *)
+    destruct (mtx s) eqn:Em; [discriminate|]. cbn [cfg_fixed unlink_linked unlink_unlinked] in Hst.
+    assert (Hst' : s' = set_client (mark (if linked (slot_at s n) then set_lst s (remove_nat n (lst s)) else s) n (SHeld t)) t
+                               (goto cl (CKResume n))).
+    { destruct (linked (slot_at s n)); inversion Hst; reflexivity. }
+    subst s'. apply L_cklock; auto.
+  - (* CKResume *)
+    inversion Hst; subst s'; clear Hst.
+    apply (L_resume s t cl n (goto cl (CKFinish n)) I Hcl); rewrite ?Hp; cbn; auto; try tauto.
+    + constructor.
+    + intros m Hm. intuition congruence.
+    + intros m Hm. intuition congruence.
+  - (* CKFinish *)
+    inversion Hst; subst s'; clear Hst.
+    apply (L_release s t cl n (finish_op cl (RK (Some true))) I Hcl); rewrite ?Hp; cbn; auto; try tauto.
+    intros m Hm. intuition congruence.
+Qed.
